@@ -103,8 +103,8 @@ func propC02(c *Ctx, r *Report) {
 	r.rule("C02-R6/resume", 3, "NewPegnetd resumes from the persisted height")
 	np := c.Startup
 	var sel *ssa.Call
-	for _, ci := range callsOf(np) {
-		if call, ok := ci.(*ssa.Call); ok && calleeName(ci.Common()) == "pegnet.Pegnet.SelectSynced" {
+	for _, ci := range c.findCallsFam(np, "pegnet.Pegnet.SelectSynced") { // in NewPegnetd or a start-up stage split off from it
+		if call, ok := ci.(*ssa.Call); ok {
 			sel = call
 		}
 	}
@@ -149,7 +149,10 @@ func propC02(c *Ctx, r *Report) {
 		for _, f := range c.family(np) {
 			fs := st
 			if f != np {
-				continue // closures/helpers: evaluated through their call sites below when present
+				fs = findStateOf(st, f, 0) // a stage split off from NewPegnetd, analysed at its call site
+				if fs == nil {
+					continue
+				}
 			}
 			allInstrs(f, func(ins ssa.Instruction) {
 				stt, ok := ins.(*ssa.Store)
